@@ -281,6 +281,11 @@ func (s *Synchronizer) advanceView(syncInfo hotstuff.SyncInfo) {
 		s.logger.Infof("advanceView: Failed to verify sync info: %v", err)
 		return
 	}
+	// remember the highest (verified) timeout certificate, so that SyncInfo() carries it to replicas that
+	// are behind: without it a replica that missed a view change on timeouts can never catch up.
+	if tc, ok := syncInfo.TC(); ok {
+		s.state.UpdateHighTC(tc)
+	}
 	if qc != nil {
 		updated, err := s.state.UpdateHighQC(*qc)
 		if err != nil {
